@@ -19,6 +19,9 @@ import (
 var ConnectionTimeout = 5 * time.Minute          // ConnectionTimeout specifies that connections will timeout 2 minutes after we've seen the last contact from the user
 var OldConnectionTimeout = 6 * ConnectionTimeout // Old connections will also timeout after a certain time
 
+// MaxProbeFragmentSize is the largest downstream fragment a client may ask the server to produce or use
+const MaxProbeFragmentSize = 65535
+
 // ServerDnsListener will simulate connections over a DNS server request/response loop
 type ServerDnsListener struct {
 	Communicator      ServerCommunicator   // Communictor does IO. This allows us to abstract away the connection logic
@@ -344,6 +347,9 @@ func (s *ServerDnsListener) testDownstreamFragmentSize(v *commands.TestDownstrea
 	u, err := s.validateAndGetUser(v.UserId, remoteAddr)
 	if err != nil {
 		resp.Err = err
+	} else if v.FragmentSize > MaxProbeFragmentSize {
+		// a DNS message cannot carry more than 64 KiB; do not allocate what the peer asks for blindly
+		resp.Err = commands.BadFrag
 	} else {
 		resp.Data = make([]byte, v.FragmentSize)
 		v := byte(107)
